@@ -193,7 +193,7 @@ def theorem_family(ew, enc, names, iflags=0x400000):
         if sig[xi] == "M" and mode == 64:
             if optl == ["vex"]:
                 optl = []                       # emitVexEvexM_vexopt: neutral
-            elif optl == ["evex"] and not iflags & 0x400000:
+            elif optl == ["evex"] and (not iflags & 0x400000 or (sh in ("rvm", "rm", "rvmi", "rmi") and not bc)):      # .._mem_evexopt
                 optl = []                       # emitVexEvexM_evexopt_evexonly: EVEX-only instruction, the option changes no byte
             if any(o != "z" for o in optl):
                 return None
